@@ -33,9 +33,6 @@ def allStates : Nat → List (List Bool)
 def statesOrdered (n : Nat) : List (List Bool) :=
   (List.range (2 ^ n)).map fun k => (List.range n).map fun i => (k / 2 ^ (n - 1 - i)) % 2 == 1
 
-def rowProb (r : List (Rat × List Bool)) (t : List Bool) : Rat :=
-  ((r.filter fun x => x.2 == t).map (·.1)).sum
-
 def trajLoop (ch : Rat → Rat) (g : Sampler) (ns ne nw : Option Nat) (basic : Bool) :
     Nat → List Bool × RS → List String → List String × RS
   | 0, x, acc => (acc.reverse, x.2)
